@@ -19,21 +19,23 @@ from .core import mk_choice
 
 class Shape:
     def __init__(self, n=3, S=2, T=1, B=1, H=2, deck_cap=2, pile_cap=2, board_cap=2, pots_cap=None,
-                 subpots_cap=None, tag=''):
+                 subpots_cap=None, tag='', R=None):
         self.n, self.S, self.T, self.B, self.H = n, S, T, B, H
         self.deck_cap, self.pile_cap, self.board_cap = deck_cap, pile_cap, board_cap
         self.pots_cap = n if pots_cap is None else pots_cap
         self.subpots_cap = 2 if subpots_cap is None else subpots_cap
         self.tag = tag
+        self.R = R             # bound on the number of run-outs (None: unbounded symbolic integer)
 
     def __repr__(self):
         return (f'n={self.n},S={self.S},T={self.T},B={self.B},H={self.H},deck<={self.deck_cap},'
-                f'pile<={self.pile_cap},board<={self.board_cap},pots<={self.pots_cap},subpots<={self.subpots_cap}')
+                f'pile<={self.pile_cap},board<={self.board_cap},pots<={self.pots_cap},subpots<={self.subpots_cap}'
+                + (f',runouts<={self.R}' if self.R is not None else ''))
 
     def as_dict(self):
         return dict(n=self.n, S=self.S, T=self.T, B=self.B, H=self.H, deck_cap=self.deck_cap,
                     pile_cap=self.pile_cap, board_cap=self.board_cap, pots_cap=self.pots_cap,
-                    subpots_cap=self.subpots_cap)
+                    subpots_cap=self.subpots_cap, R=self.R)
 
 
 class AbstractHandType:
@@ -180,7 +182,7 @@ def fresh_state(interp, ctx, shape, prefix='s.', src=None):
     f['acted_player_indices'] = A('set', BitSet(b.bool(f'acted_player_indices[{i}]') for i in range(n)))
     f['consecutive_all_in_completion_betting_or_raising_amounts'] = A('list', b.seq('consecutive_all_in_completion_betting_or_raising_amounts', n, b.chips))
     f['runout_count_selector_statuses'] = A('list', b.seq('runout_count_selector_statuses', n, b.bool, fixed=True))
-    f['runout_count'] = b.opt('runout_count', lambda nm: b.int(nm))
+    f['runout_count'] = b.opt('runout_count', (lambda nm: b.int(nm, None, shape.R)) if shape.R is not None else (lambda nm: b.int(nm)))
     f['runout_count_selection_flag'] = b.bool('runout_count_selection_flag')
     f['showdown_indices'] = A('deque', b.seq('showdown_indices', n, lambda nm: b.int(nm, 0, n - 1)))
     f['hand_killing_statuses'] = A('list', b.seq('hand_killing_statuses', n, b.bool, fixed=True))
